@@ -1,0 +1,41 @@
+//! Guarded instrumentation for the external deterministic-simulation harness.
+//!
+//! Compiled only with the `verif-hooks` cargo feature (off by default). With no callback
+//! installed on the current thread, `point` does nothing and returns `Ok(())`.
+
+use crate::error::RuntimeError;
+use std::cell::RefCell;
+
+/// Where in the evaluator a hook point sits.
+#[derive(Debug, Clone, Copy, PartialEq, Eq, Hash)]
+pub enum Site {
+    /// Entry of `evaluate_ast` (every sub-expression evaluation).
+    Eval,
+    /// `FunctionDef::call`, after the arity and call-depth checks.
+    Call,
+}
+
+pub type Callback = Box<dyn FnMut(Site) -> Result<(), RuntimeError>>;
+
+thread_local! {
+    static CALLBACK: RefCell<Option<Callback>> = const { RefCell::new(None) };
+}
+
+/// Install a callback for the current thread (replacing any previous one).
+pub fn install(cb: Callback) {
+    CALLBACK.with(|c| *c.borrow_mut() = Some(cb));
+}
+
+/// Remove the current thread's callback.
+pub fn clear() {
+    CALLBACK.with(|c| *c.borrow_mut() = None);
+}
+
+/// A fault / yield point. Returns the callback's verdict, or `Ok(())` if none is installed.
+#[inline]
+pub fn point(site: Site) -> Result<(), RuntimeError> {
+    CALLBACK.with(|c| match c.borrow_mut().as_mut() {
+        Some(f) => f(site),
+        None => Ok(()),
+    })
+}
